@@ -338,9 +338,14 @@ def c15(ctx):
     nested = {'Keys': '{<<97>>, <<98>>}',
               'Leaves': '{VNum(<<49>>), VArr(<<VNum(<<49>>)>>), VObj(<<Entry(<<97>>, VNum(<<49>>)), Entry(<<98>>, VNum(<<50>>))>>), '
                         'VObj(<<Entry(<<98>>, VNum(<<50>>)), Entry(<<97>>, VNum(<<49>>))>>)}'}
+    arrays = {'Keys': '{<<97>>}',
+              'Leaves': '{VArr(<<>>), VArr(<<VNum(<<49>>)>>), VArr(<<VNum(<<49>>), VNum(<<50>>)>>), VArr(<<VNum(<<49>>), VNum(<<50>>), VNull>>), '
+                        'VArr(<<VNum(<<50>>), VNum(<<49>>)>>), VArr(<<VObj(<<Entry(<<97>>, VNull), Entry(<<98>>, VBool(TRUE))>>)>>), '
+                        'VArr(<<VObj(<<Entry(<<98>>, VBool(TRUE)), Entry(<<97>>, VNull)>>)>>)}'}
     r1 = ctx.mc(f'unordered_flat_{ctx.tier}', 'MC_Unordered', flat, {'MaxEntries': 3 if ctx.quick else 4}, ['Dump', 'Laws'], spec='USpec')
     r2 = ctx.mc(f'unordered_nested_{ctx.tier}', 'MC_Unordered', nested, {'MaxEntries': 2 if ctx.quick else 3}, ['Dump', 'Laws'], spec='USpec')
-    ctx.replay([r1['out'], r2['out']], ['C15.'])
+    r3 = ctx.mc(f'unordered_arrays_{ctx.tier}', 'MC_Unordered', arrays, {'MaxEntries': 2}, ['Dump', 'Laws'], spec='USpec')
+    ctx.replay([r1['out'], r2['out'], r3['out']], ['C15.'])
     trace, s = ctx.record('record-unordered', 'uneq.ndjson', ['--n', 300 if ctx.quick else 4000])
     ctx.validate('uneq', 'TraceUnordered', trace, 'C15.trace',
                  'recorded unordered comparison differs from equality up to permutation of entries (MultisetEq)')
@@ -353,6 +358,11 @@ def printer_model(ctx):
     consts = {'ValueSet': 'AllValues', 'OptionSet': 'QuickOptions' if ctx.quick else 'ThoroughOptions'}
     return ctx.mc(f'printer_{ctx.tier}', 'MC_Printer', consts, {},
                   ['Dump', 'ParseOfPrint', 'OnlyWhitespaceDiffers', 'CompactMinimal', 'NoLimitSingleLine'], spec='PSpec')
+
+
+def wide_families(ctx):
+    sizes = '{1000, 40000}' if ctx.quick else '{1000, 40000, 300000}'
+    return ctx.mc(f'wide_{ctx.tier}', 'MC_Wide', {'Sizes': sizes}, {'NMax': 6}, ['ClosedForm', 'Dump'], spec='WSpec', workers=4)
 
 
 def printer_trace(ctx, aspect_layout, aspect_roundtrip):
@@ -391,19 +401,19 @@ def printer_trace(ctx, aspect_layout, aspect_roundtrip):
 
 def c13(ctx):
     r = printer_model(ctx)
-    ctx.replay([r['out']], ['C13.'])
+    ctx.replay([r['out'], wide_families(ctx)['out']], ['C13.'])
     printer_trace(ctx, 'C13.trace', None)
 
 
 def c04(ctx):
     r = printer_model(ctx)
-    ctx.replay([r['out']], ['C04.'])
+    ctx.replay([r['out'], wide_families(ctx)['out']], ['C04.'])
     printer_trace(ctx, None, 'C04.trace')
 
 
 def c08(ctx):
     r = printer_model(ctx)
-    ctx.replay([r['out']], ['C08.'])
+    ctx.replay([r['out'], wide_families(ctx)['out']], ['C08.'])
     sweeps(ctx, ['print_str', 'print_key'], 'C08.sweep',
            'compact printing of a one-character string / key differs from the RFC 8785 escaping (run-compressed exhaustive sweep)')
 
